@@ -188,6 +188,18 @@ class MonoTimer(Timer):
         return self._last
 
 
+    def start(self, duration=None, start=None):
+        """
+        Starts Timer of duration secs at start time start secs.
+            If duration not provided then uses current duration
+            If start not provided then starts at current time.time() which
+            also becomes the last measured time for retrograde detection
+        """
+        if start is None:  # starts now so resync retrograde detection to now
+            start = self._last = time.time()
+        return super(MonoTimer, self).start(duration=duration, start=start)
+
+
 class AsyncTimer(Timer):
     """Class to manage real elaspsed time using asyncio event loop time.
     Namely asyncio.get_event_loop().time()
